@@ -182,6 +182,7 @@ def main(argv):
                 jh = hy[0] if isinstance(hy, list) else {}
                 if any(x.get("r") != "panic" or x.get("h") not in UNMODELLED for x in mje):
                     run.hist("theorem_hypotheses", "Java.wfBody&refWfBody:%s" % bool(jh.get("javawf") and jh.get("refwf")))
+                    run.hist("theorem_hypotheses", "Java.encWfItems&refWfBody:%s" % bool(jh.get("javaencwf") and jh.get("refwf")))
             for n_v, (v, rf) in enumerate(zip(vals, refs)):
                 if rf.get("r") != "ok":
                     continue
@@ -201,10 +202,10 @@ def main(argv):
                                           % (T, (me.get("hex") or me.get("r"))[:40], r.get("hex", "")[:40]),
                                           {"pdl": d["text"], "type": T, "value": v, "java": r, "model": me, "corr": "corr:C19/java-chunk-model"},
                                           found_input=False)
-                        if jh.get("javawf") and jh.get("refwf"):
+                        if (jh.get("javawf") or jh.get("javaencwf")) and jh.get("refwf"):
                             run.count("theorem_instances")
                             if me.get("hex") != rf.get("hex"):
-                                run.violation("corr", "theorem java_packs_groups_up_to_32_bits contradicted by evaluation on %s (model bug)" % T,
+                                run.violation("corr", "theorem java_packs_groups_up_to_32_bits / java_writes_arrays_and_payloads contradicted by evaluation on %s (model bug)" % T,
                                               {"pdl": d["text"], "type": T, "value": v, "model": me, "reference": rf,
                                                "corr": "thm:java_packs_groups_up_to_32_bits"}, found_input=False)
                 if r.get("r") == "badvalue":
